@@ -88,6 +88,12 @@ impl Program {
     }
 
     pub fn link(&mut self) -> (Address, Arc<Vec<Error>>, Arc<Vec<Error>>) {
+        if self.direct_address == 0 && self.link.is_over_limit() {
+            // The stored program does not fit. Drop its code so that direct
+            // statements (NEW, LIST, DELETE) still have room to compile and run;
+            // the recorded error keeps the program from being entered.
+            self.link.clear();
+        }
         match self.link.last() {
             Some(Opcode::End) if !self.link.has_symbol_at_end() => {}
             _ => {
